@@ -169,7 +169,10 @@ QueryOK(q, s) ==
 
 SentMsgs(evs) == [i \in DOMAIN EvsOf(evs, "MessageSent") |-> EvsOf(evs, "MessageSent")[i].msg]
 
+\* a multi-message transaction is judged as a whole: all-or-nothing (C14) and no crash (C20); the
+\* transactions that follow it are judged against the state it left behind
 Applies(p, pre, m, f, o) ==
+  IF m.type = "Batch" THEN p \in {"C14", "C20"} ELSE
   CASE p = "C01" -> TRUE
     [] p = "C02" -> TRUE
     [] p = "C03" -> m.type = "ReceiveMessage" /\ (m.wire.k = "msg" => m.wire.caller.hi = "z")
@@ -276,6 +279,10 @@ LensR(p, pre, m, f, o, r) ==
          /\ ThresholdOK(o.post)
          /\ m.type \in AttMgrTypes =>
                (res = exp.res /\ o.post.attesters = r.post.attesters /\ o.post.threshold = r.post.threshold)
+    [] p = "C14" /\ m.type = "Batch" ->
+         /\ res = exp.res
+         /\ res # "ok" => (o.post = pre /\ o.evs = <<>>)          \* the first failing message discards everything
+         /\ res = "ok" => (o.post = r.post /\ o.evs = exp.evs /\ o.calls = exp.calls)
     [] p = "C14" ->
          /\ res # "ok" => (o.post = pre /\ o.evs = <<>>)
          /\ (res = "ok" /\ m.type \in DepTypes) =>
